@@ -139,7 +139,32 @@ def c13(args):
     return {'reproduced': bool(bad), 'detail': bad[:6]}
 
 
-RECIPES = {'linear_interp': linear_interp, 'c12': c12, 'c13': c13}
+def c10(args):
+    bad = []
+    for noise in ('diagonal', 'additive', 'scalar', 'general'):
+        d = 2
+        m = noise_m(noise, d)
+        ts = torch.tensor([0., 0.5, 1.0, 1.5])
+        for wts in ([1., 1., 1., 1.], [0., 1., 0., 0.], [0., 0.3, 1., 0.], [0.5, 0., 0., 2.]):
+            grads = []
+            for adjoint in (False, True):
+                sde = SDE(noise, 'stratonovich', d)
+                y0 = torch.full((2, d), 0.5, requires_grad=True)
+                bm = torchsde.BrownianInterval(0., 1.5, size=(2, m), entropy=7, dtype=torch.float64)
+                if adjoint:
+                    ys = torchsde.sdeint_adjoint(sde, y0, ts, bm=bm, method='reversible_heun', adjoint_method='adjoint_reversible_heun', dt=0.125)
+                else:
+                    ys = torchsde.sdeint(sde, y0, ts, bm=bm, method='reversible_heun', dt=0.125)
+                loss = sum(w * (ys[i] ** 2).sum() for i, w in enumerate(wts))
+                g = torch.autograd.grad(loss, [y0] + list(sde.parameters()))
+                grads.append(torch.cat([x.reshape(-1) for x in g]))
+            rel = ((grads[0] - grads[1]).abs().max() / grads[0].abs().max().clamp_min(1e-12)).item()
+            if rel > 1e-9:
+                bad.append((noise, wts, rel))
+    return {'reproduced': bool(bad), 'detail': bad[:6]}
+
+
+RECIPES = {'c10': c10, 'linear_interp': linear_interp, 'c12': c12, 'c13': c13}
 
 if __name__ == '__main__':
     name = sys.argv[1]
